@@ -131,16 +131,54 @@ pub fn cfg(rng: &mut Rng) -> g::Cfg {
     }
 }
 
-/// comparison chain in which adjacent terms are structurally equal with probability `p_eq`
+/// a term that is *almost* `t`: the same variable name at another sort, a commuted operation, a
+/// neighbouring numeral (structurally different, so `t = near_miss(t)` must not be evaluated)
+fn near_miss(rng: &mut Rng, cfg: &g::Cfg, t: &fol::GeneralTerm) -> fol::GeneralTerm {
+    use fol::{GeneralTerm as G, IntegerTerm as I, SymbolicTerm as S};
+    match t {
+        G::Variable(x) => {
+            if rng.chance(50) { G::IntegerTerm(I::Variable(x.clone())) } else { G::SymbolicTerm(S::Variable(x.clone())) }
+        }
+        G::IntegerTerm(I::Variable(x)) => {
+            if rng.chance(70) { G::Variable(x.clone()) } else { G::SymbolicTerm(S::Variable(x.clone())) }
+        }
+        G::SymbolicTerm(S::Variable(x)) => {
+            if rng.chance(70) { G::Variable(x.clone()) } else { G::IntegerTerm(I::Variable(x.clone())) }
+        }
+        G::IntegerTerm(I::Numeral(n)) => G::IntegerTerm(I::Numeral(n.wrapping_add(1))),
+        G::IntegerTerm(I::BinaryOperation { op, lhs, rhs }) => {
+            G::IntegerTerm(I::BinaryOperation { op: op.clone(), lhs: rhs.clone(), rhs: lhs.clone() })
+        }
+        G::IntegerTerm(I::UnaryOperation { arg, .. }) => G::IntegerTerm((**arg).clone()),
+        G::Infimum => G::Supremum,
+        G::Supremum => G::Infimum,
+        _ => g::gterm(rng, cfg, 2),
+    }
+}
+
+/// comparison chain (0-4 guards) in which adjacent terms are structurally equal with probability
+/// `p_eq`; otherwise a term may repeat an *earlier*, non-adjacent term of the chain (`X = Y = X`:
+/// only adjacent terms are compared by evaluate_comparisons) or be a near miss of its neighbour
+/// (`X$i = X`, `X+1 = 1+X`); 30% of the chains use one relation throughout (`X = X = Y`, `X < Y < X`)
 pub fn comparison(rng: &mut Rng, cfg: &g::Cfg, p_eq: usize) -> fol::Formula {
     let n = rng.weighted(&[1, 12, 5, 3, 1]);
     let term = g::gterm(rng, cfg, 2);
-    let mut last = term.clone();
+    let mut seen = vec![term.clone()];
     let mut guards = vec![];
+    let uniform = if rng.chance(30) { Some(g::relation(rng)) } else { None };
     for _ in 0..n {
-        let t = if rng.chance(p_eq) { last.clone() } else { g::gterm(rng, cfg, 2) };
-        last = t.clone();
-        guards.push(fol::Guard { relation: g::relation(rng), term: t });
+        let last = seen.last().unwrap().clone();
+        let t = if rng.chance(p_eq) {
+            last
+        } else {
+            match rng.weighted(&[if seen.len() > 1 { 3 } else { 0 }, 2, 15]) {
+                0 => seen[rng.below(seen.len() - 1)].clone(),
+                1 => near_miss(rng, cfg, &last),
+                _ => g::gterm(rng, cfg, 2),
+            }
+        };
+        seen.push(t.clone());
+        guards.push(fol::Guard { relation: uniform.unwrap_or_else(|| g::relation(rng)), term: t });
     }
     fol::Formula::AtomicFormula(fol::AtomicFormula::Comparison(fol::Comparison { term, guards }))
 }
@@ -173,6 +211,12 @@ fn binders_for(rng: &mut Rng, cfg: &g::Cfg, body: &fol::Formula) -> Vec<fol::Var
     vs
 }
 
+/// an operand of a binary redex: a comparison chain (15%; the rules that compare operands
+/// structurally -- idempotences, `F -> F`, `F <-> F` -- must treat a chain as one atom) or any formula
+fn operand(rng: &mut Rng, cfg: &g::Cfg, depth: usize) -> fol::Formula {
+    if rng.chance(15) { comparison(rng, cfg, 35) } else { formula(rng, cfg, depth) }
+}
+
 pub const N_KINDS: usize = 13;
 
 /// a formula whose ROOT is (mostly) a redex of rule number `kind` (index into RULES), or a near
@@ -198,7 +242,7 @@ pub fn redex_of(kind: usize, rng: &mut Rng, cfg: &g::Cfg, depth: usize) -> fol::
         }
         // apply_reverse_implication_definition
         3 => {
-            let f = formula(rng, cfg, d);
+            let f = operand(rng, cfg, d);
             let h = if rng.chance(25) { f.clone() } else { formula(rng, cfg, d) };
             bin(B::ReverseImplication, f, h)
         }
@@ -210,7 +254,7 @@ pub fn redex_of(kind: usize, rng: &mut Rng, cfg: &g::Cfg, depth: usize) -> fol::
         }
         // apply_equivalence_definition
         5 => {
-            let f = formula(rng, cfg, d);
+            let f = operand(rng, cfg, d);
             let h = if rng.chance(25) { f.clone() } else { formula(rng, cfg, d) };
             bin(B::Equivalence, f, h)
         }
@@ -245,7 +289,7 @@ pub fn redex_of(kind: usize, rng: &mut Rng, cfg: &g::Cfg, depth: usize) -> fol::
         }
         // remove_annihilations
         8 => {
-            let f = formula(rng, cfg, d);
+            let f = operand(rng, cfg, d);
             match rng.below(10) {
                 0 => bin(B::Disjunction, f, truth()),
                 1 => bin(B::Disjunction, truth(), f),
@@ -260,7 +304,7 @@ pub fn redex_of(kind: usize, rng: &mut Rng, cfg: &g::Cfg, depth: usize) -> fol::
         }
         // remove_idempotences
         9 => {
-            let f = formula(rng, cfg, d);
+            let f = operand(rng, cfg, d);
             match rng.weighted(&[5, 5, 1, 1]) {
                 0 => bin(B::Conjunction, f.clone(), f),
                 1 => bin(B::Disjunction, f.clone(), f),
